@@ -223,6 +223,12 @@ def gen_workload(rng, cfg, thorough):
                 # --add-include-path): Dep's include of Base must resolve by ITS search path,
                 # whatever an earlier process with another search path left in the cache
                 ops.insert(0, ['incpath', 'ba'])
+            if rng.random() < 0.25:
+                # this scanner was started inside its first search directory and names it
+                # relatively (--add-include-path=.), as build systems that run in the build
+                # directory do: the files it means are those of ITS directory, whatever another
+                # scanner, started elsewhere, called './Dep-1.0.gir'
+                ops.insert(0, ['rel'])
             procs.append(ops)
         ep = {'env': env, 'procs': procs}
         if cfg['family'] == 'midmod':
@@ -504,11 +510,14 @@ class CacheSim(object):
             # ... in whichever cache directory processes have been using (XDG_CACHE_HOME or the
             # ~/.cache fallback), and later than the previous version of the source itself
             floor = prev_mtime
-            name = hashlib.sha1(SOURCES[key].encode('utf-8')).hexdigest()
-            for d in self._candidate_cachedirs():
-                entry = self.fs.lookup(d + '/' + name)
-                if entry is not None and 'wns' in entry.tag:
-                    floor = max(floor, entry.tag['wns'])
+            # (entries under the absolute path, and under the relative spelling that scanners
+            # started inside the directory use)
+            for spelled in (SOURCES[key], './' + SOURCES[key].rpartition('/')[2]):
+                name = hashlib.sha1(spelled.encode('utf-8')).hexdigest()
+                for d in self._candidate_cachedirs():
+                    entry = self.fs.lookup(d + '/' + name)
+                    if entry is not None and 'wns' in entry.tag:
+                        floor = max(floor, entry.tag['wns'])
             t2 = min(self.fs.now_ns, floor + self._clock_rng.choice((1_000, 50_000, 3_000_000)))
             if t2 > floor:
                 node.mtime_ns = t2
@@ -915,16 +924,29 @@ class CacheSim(object):
             from giscanner.girparser import GIRParser
             ops_ = list(ops)
             p.incpath = [GIRA]
-            while ops_ and ops_[0][0] in ('nocache', 'incpath'):
+            rel = False
+            while ops_ and ops_[0][0] in ('nocache', 'incpath', 'rel'):
                 if ops_[0][0] == 'nocache':
                     p.environ['GI_SCANNER_DISABLE_CACHE'] = '1'
+                elif ops_[0][0] == 'rel':
+                    rel = True
                 else:
                     p.incpath = [GIRB, GIRA]
                 ops_.pop(0)
+            spelled_incpath = list(p.incpath)
+            if rel:
+                p.cwd = p.incpath[0]
+                spelled_incpath[0] = '.'
+
+            def spell(key):
+                # the path as this scanner's own search (os.path.join(dir, name)) would spell it
+                path = SOURCES[key]
+                d, _, name = path.rpartition('/')
+                return './' + name if (rel and d == p.cwd) else path
             rec = sim.op_begin(p, ['construct'])
             try:
                 T = gtrans.Transformer(gast.Namespace('Main', '1.0'))
-                T.set_include_paths(p.incpath)
+                T.set_include_paths(spelled_incpath)
             except (Killed, SeamGap):
                 raise
             except BaseException as e:
@@ -937,9 +959,9 @@ class CacheSim(object):
                 try:
                     kind = op[0]
                     if kind == 'parse_include':
-                        val = T._parse_include(SOURCES[op[1]])
+                        val = T._parse_include(spell(op[1]))
                     elif kind == 'load':
-                        val = T._cachestore.load(SOURCES[op[1]]) if T._cachestore is not None else None
+                        val = T._cachestore.load(spell(op[1])) if T._cachestore is not None else None
                     elif kind == 'newstore':
                         val = gtrans.CacheStore()
                         T._cachestore = val
